@@ -43,6 +43,54 @@ def _normalise_tests(tree):
                 for i, st in enumerate(h.body):
                     if isinstance(st, ast.AnnAssign) and st.value is not None and st.simple:
                         h.body[i] = ast.copy_location(ast.Assign(targets=[st.target], value=st.value, type_comment=None), st)
+    # `x = E` immediately followed by `return x` is `return E` (x a plain local name)
+    def _inline_returns(stmts):
+        i = 0
+        while i + 1 < len(stmts):
+            a, b = stmts[i], stmts[i + 1]
+            if isinstance(a, ast.Assign) and len(a.targets) == 1 and isinstance(a.targets[0], ast.Name) and isinstance(b, ast.Return) and isinstance(b.value, ast.Name) and b.value.id == a.targets[0].id:
+                stmts[i : i + 2] = [ast.copy_location(ast.Return(value=a.value), a)]
+            i += 1
+
+    for parent in ast.walk(tree):
+        for field in ("body", "orelse", "finalbody"):
+            stmts = getattr(parent, field, None)
+            if isinstance(stmts, list) and stmts and isinstance(stmts[0], ast.stmt):
+                _inline_returns(stmts)
+    # `t = E` immediately followed by `if <test using t once>:` where t is read nowhere else in the function: the
+    # temporary is inlined into the test
+    def _blocks(node):
+        for parent in ast.walk(node):
+            for field in ("body", "orelse", "finalbody"):
+                stmts = getattr(parent, field, None)
+                if isinstance(stmts, list) and stmts and isinstance(stmts[0], ast.stmt):
+                    yield stmts
+
+    for fn in [n for n in ast.walk(tree) if isinstance(n, (ast.FunctionDef, ast.AsyncFunctionDef))]:
+        loads = {}
+        for n in ast.walk(fn):
+            if isinstance(n, ast.Name) and isinstance(n.ctx, ast.Load):
+                loads[n.id] = loads.get(n.id, 0) + 1
+        pairs = {}
+        for stmts in _blocks(fn):
+            for i in range(len(stmts) - 1):
+                a, b = stmts[i], stmts[i + 1]
+                if isinstance(a, ast.Assign) and len(a.targets) == 1 and isinstance(a.targets[0], ast.Name) and isinstance(b, (ast.If, ast.While)) and not isinstance(b, ast.While):
+                    x = a.targets[0].id
+                    if sum(1 for n in ast.walk(b.test) if isinstance(n, ast.Name) and n.id == x) == 1:
+                        pairs.setdefault(x, []).append((stmts, a, b))
+        for x, ps in pairs.items():
+            if loads.get(x, 0) != len(ps):
+                continue
+            if not all(any(a is s_ for s_ in stmts) for stmts, a, b in ps):
+                continue  # already inlined while handling the enclosing function
+            for stmts, a, b in ps:
+                class _Sub(ast.NodeTransformer):
+                    def visit_Name(self, n, _x=x, _v=a.value):
+                        return _v if n.id == _x and isinstance(n.ctx, ast.Load) else n
+
+                b.test = _Sub().visit(b.test)
+                del stmts[[k for k, s_ in enumerate(stmts) if s_ is a][0]]
     # `if a:` whose only statement is an else-less `if b: S` (and no else itself) is `if a and b: S`
     changed = True
     while changed:
